@@ -9,4 +9,8 @@ PROPS = {
                 not_modelled='a server that keeps its TLS state and reduces its transport parameters still accepts 0-RTT (recorded finding zero-rtt-accepted-with-reduced-parameters); quinn async layer (ZeroRttRejected mapping)'),
     'C02': dict(sim=[_Z2], modelled='', not_modelled=''),
     'C05': dict(sim=[_Z2], modelled='', not_modelled=''),
+    # the content / terminal-outcome oracles of the workload also judge early (0-RTT) data: accepted, or rejected and repeated
+    'C01': dict(sim=[('zrtt2', 60, 600)], modelled='', not_modelled=''),
+    'C11': dict(sim=[('zrtt2', 60, 600)], modelled='', not_modelled=''),
+    'C16': dict(sim=[('zrtt2', 60, 600)], modelled='', not_modelled=''),
 }
